@@ -159,3 +159,59 @@ Example T09d_relabel_example :
   map b_id (build_map (ids_of (relabel Z.opp [(5, 1%nat); (-2, 3%nat); (7, 5%nat)]))) = [-7; -5; 2] /\
   map b_id (build_map (ids_of [(5, 1%nat); (-2, 3%nat); (7, 5%nat)])) = [-2; 5; 7].
 Proof. split; [intros; lia|]. vm_compute. split; reflexivity. Qed.
+
+(* ---- histories of one Database object (declarations on several columns, refused declarations, direct
+   edits of database.data, Database.remove, earlier evaluations and draws). *)
+Section Histories.
+  Context {A : Type}.
+
+  (* T09g. After ANY history, an evaluation uses the map of the current table on the current panel column,
+     a sorted permutation of the current table, and one series of draws per individual of that table. *)
+  Theorem T09g_evaluation_uses_current_table : forall (s0 : @pstate A) ops c,
+    let s := fst (run_ops s0 ops) in
+    st_col s = Some c ->
+    let s2 := prepare_eval s in
+    st_col s2 = Some c /\
+    Permutation (st_table s) (st_table s2) /\
+    StronglySorted Z.le (col_ids c (st_table s2)) /\
+    st_map s2 = build_map (col_ids c (st_table s)) /\
+    st_map s2 = build_map (col_ids c (st_table s2)) /\
+    st_draws s2 = distinct (col_ids c (st_table s)).
+  Proof. exact evaluation_uses_current_table. Qed.
+
+  (* T09h. A declaration (also a second one, on another column) is accepted exactly on contiguous columns;
+     accepted: that column is the panel column and the map is the map of that column; refused: the state
+     of the database is unchanged. *)
+  Theorem T09h_declaration_exact : forall (s : @pstate A) c,
+    (contiguous (col_ids c (st_table s)) ->
+       st_col (step s (OpPanel c)) = Some c /\
+       st_map (step s (OpPanel c)) = build_map (col_ids c (st_table s)) /\
+       Permutation (st_table s) (st_table (step s (OpPanel c)))) /\
+    (~ contiguous (col_ids c (st_table s)) -> step s (OpPanel c) = s).
+  Proof. exact declaration_exact. Qed.
+
+  (* T09i. A direct edit of the table leaves the stored map stale; the next evaluation does not use it. *)
+  Theorem T09i_edit_then_evaluate : forall (s : @pstate A) t c,
+    st_col s = Some c ->
+    st_map (step s (OpEdit t)) = st_map s /\
+    st_map (prepare_eval (step s (OpEdit t))) = build_map (col_ids c t) /\
+    st_draws (prepare_eval (step s (OpEdit t))) = distinct (col_ids c t).
+  Proof. exact edit_then_evaluate. Qed.
+End Histories.
+Print Assumptions T09g_evaluation_uses_current_table.
+Print Assumptions T09h_declaration_exact.
+Print Assumptions T09i_edit_then_evaluate.
+
+(* non-vacuity (columns that exist: [nth] is totalised): persons (column 0) then households (column 1), then a
+   third column that is refused, then a
+   direct edit appending an individual with a small identifier: the stored map is stale, the evaluation's is not *)
+Example T09ghi_example :
+  let t := [([5; 20; 1], 1%nat); ([5; 20; 2], 2%nat); ([7; 20; 1], 3%nat); ([9; 30; 3], 4%nat)] in
+  let t' := t ++ [([2; 10; 4], 5%nat)] in
+  let '(s, verdicts) := run_ops (fresh t) [OpPanel 0%nat; OpPanel 1%nat; OpPanel 2%nat; OpEdit t'] in
+  verdicts = [true; true; false; true] /\ st_col s = Some 1%nat /\
+  st_map s = [(20, 0%nat, 2%nat); (30, 3%nat, 3%nat)] /\
+  st_map (prepare_eval s) = [(10, 0%nat, 0%nat); (20, 1%nat, 3%nat); (30, 4%nat, 4%nat)] /\
+  st_draws (prepare_eval s) = 3%nat /\
+  panel_accepts (fresh [([1; 1], 0%nat); ([2; 2], 0%nat); ([1; 1], 0%nat)]) 0%nat = false.
+Proof. vm_compute. repeat split; reflexivity. Qed.
